@@ -321,6 +321,17 @@ func c11Case(run *evid.Run, i int, j *Journal) {
 					}
 				}
 			}
+			// a load with a timeout has ONE deadline: once a request has been ended by it, no request with a live context may follow
+			expired := false
+			for _, e := range evs {
+				if e.Kind == "get-ret" && (e.Res == "hang-ctx" || e.Res == "ctx") {
+					expired = true
+				}
+				if expired && e.Kind == "get-call" && e.Res != "ctx-done" && p.Timeout > 0 && p.Timeout < 10000 {
+					run.Violate("C11/request-after-timeout", d, wit(), "block %s was requested with a live context after the load's timeout (%d ms) had already ended another request: the timeout does not bound the whole load", hx.Short(e.Cid), p.Timeout)
+					break
+				}
+			}
 			for hs, n := range calls {
 				if excl[hs] {
 					run.Violate("C11/excluded-requested", d, wit(), "excluded hash %s was requested from the store", hx.Short(hs))
